@@ -16,6 +16,7 @@ import os, subprocess, collections
 import vlib
 
 PROP_MODULE = "GomlVerif.Props.GoPrint"
+LEX_MODULE = "GomlVerif.Props.GoLex"
 PANIC = "\x00PANIC"
 
 
@@ -227,12 +228,12 @@ def add_to(ctx, prop, cov):
     for sig, what, payload in found:
         ctx.report(sig, what, payload)
     cov["gopp"] = gcov
-    ctx.assumptions.append("go_pprint.rs has its own model (Model/GoPrint.lean) tied byte for byte by `gv gopp` at widths 40/80/120; Props/GoPrint.lean proves on the model: the layout does not depend on the width (the printer has no soft break), the printed text of a paren-free expression parses back to it by Go's precedence rules, escape_go_string is inverted by Go's string-literal decoding, no line break separates tokens that Go's semicolon rule would split; the char-level Go lexer is not modelled (tokens are the printer's own text pieces; adjacency is checked per item by `glueFree`)")
+    ctx.assumptions.append("go_pprint.rs has its own model (Model/GoPrint.lean) tied byte for byte by `gv gopp` at widths 40/80/120; Props/GoPrint.lean proves on the model: the layout does not depend on the width (the printer has no soft break), the printed text of a paren-free expression parses back to it by Go's precedence rules, escape_go_string is inverted by Go's string-literal decoding, no line break separates tokens that Go's semicolon rule would split; Go's lexer at character level is Model/GoLex.lean: Props/GoLex.lean proves its skeleton (blanks, newlines, indentation, automatic semicolons: `lex_layout`) and identifiers / keywords (`lexTok_word`, `lex_render_tokens_partial`); that it returns the model's token pieces on numbers, strings, operators and glue-free adjacent tokens is validated on the real text of every item (`golex` tie, two independent lexers), not proved")
 
 
 def run(ctx):
     ctx.extract()
-    ctx.build_lean([PROP_MODULE])
+    ctx.build_lean([PROP_MODULE, LEX_MODULE])
     if not ctx.build_harness():
         return ctx.finish("proof", {"programs": 0, "disagreements_checked": 0, "samples": []}, [], "lake build")
     cov, found = evaluate(ctx)
